@@ -289,6 +289,26 @@ example : (Range.mk ⟨0, 8000⟩ (some ⟨0, 8002⟩)).size ≠ (Range.mk ⟨0,
     ∧ (Range.mk ⟨0, 90⟩ (some ⟨0, 80⟩)).wf = false ∧ (Range.mk ⟨0, 65536⟩ none).wf = false
     ∧ validProto (protoOf (some "http".toList)) = false := by decide
 
+/-- the ports transformer on a well-formed short spec: the long-form entries (up to order), each encoded as a mapping -/
+theorem transformPorts_short_eq_long (ign : Bool) (a : PortSpec) (h : a.wf = true) :
+    ∃ l : List PortCfg, l.Perm a.long ∧ transformPorts ign (.seq [.str (String.ofList a.render)]) = .ok (.seq (l.map encodePort)) := by
+  obtain ⟨l, hl, hp⟩ := port_short_eq_long a h
+  exact ⟨l, hp, by simp [transformPorts, portEntries, hl]⟩
+
+/-- long-form entries are left unchanged -/
+theorem transformPorts_long_id (ign : Bool) (ms : List Val.KVs) :
+    transformPorts ign (.seq (ms.map Val.map)) = .ok (.seq (ms.map Val.map)) := by
+  simp [transformPorts, portEntries_maps]
+
+/-- a port string that does not parse is an error (the whole list is rejected, nothing is loaded partially) -/
+theorem transformPorts_reject (s : String) (pre : List Val.KVs) (post : List Val) (h : parsePort s.toList = none) :
+    transformPorts false (.seq (pre.map Val.map ++ .str s :: post)) = .err "parse" := by
+  have : ∀ acc, portEntries false (pre.map Val.map ++ .str s :: post) acc = some (.err "parse") := by
+    induction pre with
+    | nil => intro acc; simp [portEntries, h]
+    | cons m r ih => intro acc; simp [portEntries, ih]
+  simp [transformPorts, this]
+
 /-! ## KEY[=VALUE] list vs mapping -/
 
 /-- `MappingWithEquals` (environment, build args): the list form and the mapping form decode to the same value;
